@@ -591,6 +591,12 @@ impl CompressorOxide {
         core::mem::replace(&mut self.dict.verif_fill_max, 0)
     }
 
+    /// Largest LZ code buffer position at the start of a tokenising step since the last call of
+    /// this function (a step must still fit behind it).
+    pub fn verif_lz_code_pos_max(&mut self) -> usize {
+        core::mem::replace(&mut self.lz.verif_step_pos_max, 0)
+    }
+
     pub fn verif_lz_state(&self) -> (usize, usize, usize, u32, &[u8]) {
         (
             self.dict.lookahead_pos,
@@ -1682,6 +1688,10 @@ pub(crate) struct LZOxide {
 
     pub total_bytes: u32,
     pub num_flags_left: u32,
+    /// Verification hook: largest `code_position` seen at the start of a tokenising step
+    /// (read and cleared by `verif_lz_code_pos_max`).
+    #[cfg(miniz_oxide_verif)]
+    pub verif_step_pos_max: usize,
 }
 
 impl LZOxide {
@@ -1696,6 +1706,8 @@ impl LZOxide {
             flag_position: 0,
             total_bytes: 0,
             num_flags_left: 8,
+            #[cfg(miniz_oxide_verif)]
+            verif_step_pos_max: 0,
         }
     }
 
@@ -1707,6 +1719,8 @@ impl LZOxide {
             flag_position: 0,
             total_bytes: 0,
             num_flags_left: 8,
+            #[cfg(miniz_oxide_verif)]
+            verif_step_pos_max: 0,
         }
     }
 
@@ -2143,6 +2157,7 @@ fn compress_normal(d: &mut CompressorOxide, callback: &mut CallbackOxide) -> boo
         #[cfg(miniz_oxide_verif)]
         {
             d.dict.verif_fill_max = cmp::max(d.dict.verif_fill_max, lookahead_size + d.dict.size);
+            d.lz.verif_step_pos_max = cmp::max(d.lz.verif_step_pos_max, d.lz.code_position);
         }
         let mut cur_match_dist = 0;
         let mut cur_match_len = if saved_match_len != 0 {
@@ -2318,6 +2333,7 @@ fn compress_fast(d: &mut CompressorOxide, callback: &mut CallbackOxide) -> bool 
             #[cfg(miniz_oxide_verif)]
             {
                 d.dict.verif_fill_max = cmp::max(d.dict.verif_fill_max, lookahead_size + d.dict.size);
+                d.lz.verif_step_pos_max = cmp::max(d.lz.verif_step_pos_max, d.lz.code_position);
             }
 
             let first_trigram = d.dict.read_unaligned_u32(cur_pos) & 0xFF_FFFF;
@@ -2435,6 +2451,10 @@ fn compress_fast(d: &mut CompressorOxide, callback: &mut CallbackOxide) -> bool 
         }
 
         while lookahead_size != 0 {
+            #[cfg(miniz_oxide_verif)]
+            {
+                d.lz.verif_step_pos_max = cmp::max(d.lz.verif_step_pos_max, d.lz.code_position);
+            }
             let lit = d.dict.b.dict[cur_pos];
             d.lz.total_bytes += 1;
             d.lz.write_code(lit);
